@@ -198,4 +198,49 @@ theorem fair_completion {disk : Pos → Data} {slack : Nat} (hs : 1 ≤ slack) (
   · exact hd
   · exact allDone_of_measure_zero (by omega)
 
+/-! ### which reads go through the cache -/
+
+/-- one `File.Read` makes no cache call at all, or exactly one — a get of the file's fragment block —
+    before it continues -/
+theorem readC_ops {ρ} (disk : Pos → Data) (im : Image) (f : FileD) (h : HSt) (n : Nat) (k : HRes → HSt → Client ρ) :
+    (∃ r h', (readC im f h n k).ops disk = (k r h').ops disk) ∨
+      ∃ pos foff r h', f.frag = some (pos, foff) ∧ (readC im f h n k).ops disk = .get pos true :: (k r h').ops disk := by
+  unfold readC
+  by_cases hsz : f.size ≤ h.off
+  · simp only [hsz, if_true]; exact Or.inl ⟨_, _, rfl⟩
+  · simp only [hsz, if_false]
+    by_cases hp : (readPre im f h n).2 = true
+    · simp only [hp, if_true]
+      cases hf : f.frag with
+      | none => exact Or.inl ⟨_, _, rfl⟩
+      | some pf =>
+        obtain ⟨pos, foff⟩ := pf
+        exact Or.inr ⟨pos, foff, (readFrag im f n h foff (readPre im f h n).1 (some (disk pos))).1,
+          (readFrag im f n h foff (readPre im f h n).1 (some (disk pos))).2, rfl, by simp only [Client.ops]⟩
+    · simp only [hp]; exact Or.inl ⟨_, _, rfl⟩
+
+/-- which reads go through the LRU: every cache call of a handle — whatever its program — is a get of
+    ITS file's fragment block or a `setMaxBlocks` from `SetCacheSize`; data blocks never pass through
+    the cache -/
+theorem handleC_ops (disk : Pos → Data) (im : Image) (f : FileD) :
+    ∀ (ops : List HOp) (h : HSt) (acc : List HRes), ∀ op ∈ (handleC im f h ops acc).ops disk,
+      (∃ pos foff, f.frag = some (pos, foff) ∧ op = .get pos true) ∨ ∃ c, op = .setMax (cacheBlocks f.bs c)
+  | [], h, acc, op, hop => by simp [handleC, Client.ops] at hop
+  | .read n :: ops, h, acc, op, hop => by
+    simp only [handleC] at hop
+    rcases readC_ops disk im f h n (fun r h' => handleC im f h' ops (r :: acc)) with ⟨r, h', he⟩ | ⟨pos, foff, r, h', hf, he⟩
+    · rw [he] at hop; exact handleC_ops disk im f ops h' (r :: acc) op hop
+    · rw [he] at hop
+      rcases List.mem_cons.1 hop with rfl | hop
+      · exact Or.inl ⟨pos, foff, hf, rfl⟩
+      · exact handleC_ops disk im f ops h' (r :: acc) op hop
+  | .seek w o :: ops, h, acc, op, hop => by
+    simp only [handleC] at hop
+    exact handleC_ops disk im f ops _ _ op hop
+  | .setCache c :: ops, h, acc, op, hop => by
+    simp only [handleC, Client.ops] at hop
+    rcases List.mem_cons.1 hop with rfl | hop
+    · exact Or.inr ⟨c, rfl⟩
+    · exact handleC_ops disk im f ops _ _ op hop
+
 end Diskfs.Lru
